@@ -53,7 +53,7 @@ pub fn rule_table(o: &Opts, before: &str, v: &str) -> Option<String> {
 }
 
 fn alphabet() -> Vec<(char, &'static str)> {
-    let keep = "krTtoaiuUREwWLhcnjJ1m.lxyzK";
+    let keep = "krTtoaiIuUREOwWLhcnjJ1m.lxyzK";   // every one of the ten signs with an independent form + U+09C4
     s2_bindings().into_iter().filter(|(c, _)| keep.contains(*c)).collect()
 }
 
